@@ -60,6 +60,12 @@ class ShardWriterBase(ABC):
             # If the attribute dtype is "bytes" and shape is empty tuple we
             # consider this a variable size attribute and do not check shape.
             if attribute.has_variable_size():
+                # A variable size attribute holds a single str or bytes value:
+                # a sequence of them cannot be stored as one example (the npz
+                # writer used to accept it and fail when closing the shard).
+                if np.ndim(values[attribute.name]) != 0:
+                    raise ValueError(f"Attribute {attribute.name} expects a "
+                                     f"single {attribute.dtype} value")
                 continue
 
             # Else check the shape (the value should be a NumPy array but maybe
